@@ -83,8 +83,7 @@ let model input =
     let (locs, stop) = parse_query q in
     match Locator.locate ms locs stop with
     | Locator.LOk l -> "H:" ^ ids_string (row_ids l) ^ " same"
-    | Locator.LErr Locator.ENoLocators -> "E:nolocators same"
-    | Locator.LErr Locator.EStopLow -> "E:stoplow same"
+    | Locator.LErr -> "E:stoplow same"   (* lerr has the single value EStopLow: extraction erases the argument *)
   end
 
 (* the specification applied to the IMPLEMENTATION's observable *)
